@@ -1,6 +1,7 @@
 package c17
 
 import (
+	"encoding/json"
 	"fmt"
 	"math"
 	"reflect"
@@ -385,9 +386,30 @@ func pickSorted(r *vh.Rand, xs []string) string {
 	return vh.Pick(r, xs)
 }
 
+// minimised histories that failed once (they run first, in every tier)
+var pastHistories = []string{
+	// abc9d26: `$r = $o->Ret();` twice in one script, Go returns -0.0 and then +0.0 — the second assignment was
+	// skipped by data.AssignFloatToZVal (-0.0 == 0.0) and the script received -0.0 again; and the other way round
+	`{"kind":"seq","nvm":3,"steps":[{"reg":"class","vm":1,"class":"Sw","fix":"Tab"},{"vm":1,"temp":true,"calls":[` +
+		`{"class":"Sw","method":"Ret","args":null,"echo":-1,"ret":["float64:f8000000000000000"]},` +
+		`{"class":"Sw","method":"Ret","route":"dyn","args":null,"echo":-1,"ret":["float64:f0000000000000000"]},` +
+		`{"class":"Sw","method":"Ret","args":null,"echo":-1,"ret":["float64:f8000000000000000"]}]}]}`,
+}
+
 // all history streams; returns (#histories, #calls)
 func (h *harness) streamHistories(nrandom, ncalls int) (int, int) {
 	nh, nc := 0, 0
+	for _, raw := range pastHistories {
+		var sc seqCase
+		if err := json.Unmarshal([]byte(raw), &sc); err != nil {
+			h.c.Note("past history unreadable: %v", err)
+			continue
+		}
+		h.doSeq(&sc, false)
+		h.c.Hit("hist:past-failure")
+		nh++
+		nc += sc.nCalls()
+	}
 	maxFs := 0
 	for _, m := range methodNames {
 		if n := len(fixturesWith(m)); n > maxFs {
